@@ -7,6 +7,7 @@ FUNCTIONS = [c.qualname for c in _c.CINITS] + ["BaseRef.__hash__"]
 ENGINE = RefsEngine
 RAC = "rac/c06.py"
 RAC_BUDGET = {"quick": 50, "thorough": 400}
+RAC_MIN = {"quick": 72162, "thorough": 72162}      # fewer run-time evaluations than this = the harness skipped its work: checker broken, not "held"
 DESIGN_REF = "DESIGN.md section 4, C06"
 TECHNIQUE = "contract-based deductive verification of the hash computation (relational obligation on each __cinit__, QF_UF, z3) + run-time contracts on all pairs of adversarial paths"
 TRUSTED = ["hash() of tuples is a function of the element values (congruence of the uninterpreted py_hash)",
